@@ -202,3 +202,71 @@ def a4(ctx):
 def a5(ctx):
     from .c17 import data_from_body
     return data_from_body(ctx, "xandikos.carddav.AddressDataProperty", "xandikos.carddav.AddressbookQueryReporter")
+
+
+@rule("C12", "A6", floor=3, kind="S",
+      desc="quantifier shape: the loops over property instances / filter children in the vCard evaluators can reach a "
+           "second iteration (a loop whose body always returns examines only the first element)")
+def a6(ctx):
+    from .common import loop_can_iterate_twice
+    obs = []
+    n = 0
+    for q in (CARD + ".apply_prop_filter", CARD + ".apply_param_filter"):
+        fi = ctx.func(q)
+        cfg = ctx.cfg(fi)
+        for lp in [x for x in cfg.nodes if x.kind == "for"]:
+            n += 1
+            ok = loop_can_iterate_twice(cfg, lp)
+            obs.append(ctx.ob(ok, q, where(fi, lp), "loop `for %s in %s` is not cut after its first element" % (src(lp.ast.target), src(lp.ast.iter)),
+                              "a second iteration is reachable",
+                              "every path through the body of `for %s in %s` leaves the loop: only the first element is examined, so a card whose "
+                              "matching value is a later instance of the property is not returned" % (src(lp.ast.target), src(lp.ast.iter))))
+    # apply_prop_filter is existential over the instances: a `return True` inside the instance loop, `return False` after it
+    fi = ctx.func(CARD + ".apply_prop_filter")
+    cfg = ctx.cfg(fi)
+    outer = [x for x in cfg.nodes if x.kind == "for" and isinstance(x.ast.iter, ast.Name)]
+    ok = False
+    if outer:
+        from .common import loop_body_nodes
+        body = loop_body_nodes(cfg, outer[0])
+        rt = [x for x in cfg.nodes if x.kind == "return" and x.id in body and isinstance(x.ast.value, ast.Constant) and x.ast.value.value is True]
+        rf_in = [x for x in cfg.nodes if x.kind == "return" and x.id in body and isinstance(x.ast.value, ast.Constant) and x.ast.value.value is False]
+        rf_after = [x for x in cfg.nodes if x.kind == "return" and x.id not in body and isinstance(x.ast.value, ast.Constant) and x.ast.value.value is False
+                    and x.id in cfg.reachable([m for m, l in outer[0].succ if l == "done"])]
+        ok = bool(rt) and not rf_in and bool(rf_after)
+    obs.append(ctx.ob(ok, fi.qualname, fi.where, "prop-filter is existential over the property's instances",
+                      "True as soon as one instance matches, False only after all were tried",
+                      "apply_prop_filter no longer answers 'some instance of the property matches': it returns False from inside the loop over the instances "
+                      "or never returns True there"))
+    if n < 2:
+        raise AnalysisError("evaluator loops not found")
+    return obs
+
+
+@rule("C12", "A7", floor=1, kind="S",
+      desc="i;ascii-casemap folds ASCII letters only: the case folding is applied to encoded bytes (bytes.upper/lower), "
+           "never to str (str.upper is Unicode-aware: 'ß'->'SS', 'ë'->'Ë')")
+def a7(ctx):
+    m = ctx.P.module(COLL)
+    e = m.const_exprs.get("collations")
+    if not isinstance(e, ast.Dict):
+        raise AnalysisError("collation.collations is no longer a dict literal")
+    obs = []
+    for kx, vx in zip(e.keys, e.values):
+        if ctx.P.try_fold(m, kx) != "i;ascii-casemap":
+            continue
+        folds = [n for n in ast.walk(vx) if isinstance(n, ast.Call) and isinstance(n.func, ast.Attribute) and n.func.attr in ("upper", "lower", "casefold", "title", "swapcase")]
+        if not folds:
+            raise AnalysisError("i;ascii-casemap: no case-folding call found (unmodelled implementation)")
+        bad = []
+        for f in folds:
+            recv = f.func.value
+            on_bytes = isinstance(recv, ast.Call) and isinstance(recv.func, ast.Attribute) and recv.func.attr == "encode"
+            if f.func.attr == "casefold" or not on_bytes:
+                bad.append(src(f))
+        obs.append(ctx.ob(not bad, COLL + ".collations['i;ascii-casemap']", "%s:%d" % (m.rel, vx.lineno), "case folding on bytes",
+                          "every fold is <str>.encode(...).upper()", "i;ascii-casemap folds case with %s on text: non-ASCII letters are folded too "
+                          "(and 'ß' expands to 'SS'), so cards match that RFC 4790's ASCII casemap keeps apart" % ", ".join(bad)))
+    if not obs:
+        raise AnalysisError("i;ascii-casemap is not registered")
+    return obs
